@@ -1,4 +1,5 @@
 import CssVerif.Model.SelSpec
+import CssVerif.Model.SelText
 open CssVerif.Proto CssVerif.Sel
 
 /-! line protocol of the C16 model driver (see tools/harness/c16.py)
@@ -15,6 +16,11 @@ space <hex>                   str.isspace of each code point
 spec <ns> <words…>            a written selector (`Sel` of Model/SelSpec.lean) in prefix notation: replies with its
                               `ok` flag, `count`, `raw` tokens, `items`, `element` (the specification side)
 ```
+text <ns> <words…>            the same written selector at text level: `plainChain raw`, `Sel.text`, the tokens the
+                              tokenizer model (Model/Tok.lean) returns for that text, and the selector model on them
+attach <ns> <sheetns> <tokens>  a selector parsed with <ns> and then attached to a sheet whose namespaces (the
+                              sheet's effective prefix -> URI view) are <sheetns>: its text there (`serItems sheetns seq`)
+seltext <ns> <hex>            any text: tokenizer model, then the selector model (`parseSel ns (tokensOf text)`)
 `<ns>` = `-` or `p=u&p=u` (hex strings), `<tokens>` = `-` or `typ/val,typ/val` (hex strings). -/
 
 def decTok (w : String) : Option Tok :=
@@ -294,8 +300,36 @@ def doSpec (ns : NsMap) (ws : List String) : String :=
     s!"SPEC ok={if s.ok ns then 1 else 0} {k.1} {k.2.1} {k.2.2} E={match s.element ns with | some v => showVal v | none => "none"} RAW={showToks s.raw} COOKED={showToks s.cooked} I={";".intercalate ((s.items ns).map showItem)}"
   | _ => "bad-op"
 
+def showParse (ns : NsMap) (toks : List Tok) : String :=
+  match parseSel ns toks with
+  | .ok (some r) =>
+    if r.seq.isEmpty && r.b == 0 && r.c == 0 && r.d == 0 && r.element.isNone then "REJECT" else showSel r
+  | .ok none => "REJECT"
+  | .error e => showErr e
+
+def doText (ns : NsMap) (ws : List String) : String :=
+  match pSel ws with
+  | some (s, []) =>
+    let toks := tokensOf s.text
+    s!"TEXT plain={if plainChain s.raw then 1 else 0} T={encCps s.text} TOK={showToks toks} | {showParse ns toks}"
+  | _ => "bad-op"
+
 def handle (line : String) : String :=
   match words line with
+  | "text" :: ns :: ws => (match decNs ns with
+      | some ns => doText ns ws
+      | none => "bad-op")
+  | ["attach", ns, sns, toks] => (match decNs ns, decNs sns, decToks toks with
+      | some ns, some sns, some toks => (match parseSel ns toks with
+          | .ok (some r) => s!"ATT {r.b} {r.c} {r.d} T={encCps (serItems sns r.seq)}"
+          | .ok none => "REJECT"
+          | .error e => showErr e)
+      | _, _, _ => "bad-op")
+  | ["seltext", ns, t] => (match decNs ns, decCps t with
+      | some ns, some t =>
+        let toks := tokensOf t
+        s!"SELTEXT plain={if plainChain toks then 1 else 0} TOK={showToks toks} | {showParse ns toks}"
+      | _, _ => "bad-op")
   | ["sel", ns, toks] => match decNs ns, decToks toks with
       | some ns, some toks => (match parseSel ns toks with
           | .ok (some r) =>
